@@ -16,8 +16,8 @@ for d in $DEMOS; do mv $d.aside $d; done
 echo "== demo with the change (must FAIL)"
 go test -vet=off -count=1 -p 4 -run 'Seed' $PKGS 2>&1 | tail -8 | tee $OUT/demo_with_change.txt
 echo "== demo without the change (must PASS)"
-git diff > /tmp/confirm_seed.patch; git checkout -q -- .
+git diff > /tmp/confirm_seed_${P}_${N}.patch; git checkout -q -- .
 go test -vet=off -count=1 -p 4 -run 'Seed' $PKGS 2>&1 | tail -5 | tee $OUT/demo_without_change.txt
-git apply /tmp/confirm_seed.patch
+git apply /tmp/confirm_seed_${P}_${N}.patch
 echo "== my check against the changed tree"
 cd /verif && VERIF_REPO=$WT bin/gosym check $P --tier quick --no-evidence 2>&1 | grep -E "^(VIOLATION|KNOWN|INCONCLUSIVE|check)" | cut -c1-300 | tail -6 | tee $OUT/check_output.txt
